@@ -392,6 +392,72 @@ def _read(path):
     return recs
 
 
+STATIC_ALLOW = {
+    # (file suffix, function): mutable defaults of the synthetic-grammar generator (a utility outside every search)
+    ("geneticengine/grammar/synthetic_grammar.py", "create_dataclass_dynamically"),
+    ("geneticengine/grammar/synthetic_grammar.py", "create_arbitrary_grammar"),
+}
+
+
+def static_obligations(report):
+    """Program-text obligations over the whole library (complete for what they state, no input needed):
+    (1) randomness is drawn only through RandomSource objects -- no call of the process-global generators
+        (`random.<f>(...)` of the stdlib module, `numpy.random.<f>(...)`), whose state is not set by the search's seed;
+    (2) no parameter default is an object constructed at import time (`def __init__(self, evaluator=SequentialEvaluator())`):
+        such an object is shared by every search of the process, so a second identical search starts from other state."""
+    import ast
+
+    n_files = 0
+    for base in ("geneticengine", "geml"):
+        for dp, _dn, fn in os.walk(os.path.join(REPO, base)):
+            for f in fn:
+                if not f.endswith(".py"):
+                    continue
+                path = os.path.join(dp, f)
+                rel = os.path.relpath(path, REPO)
+                try:
+                    tree = ast.parse(open(path).read())
+                except SyntaxError:
+                    continue
+                n_files += 1
+                std_random, np_names = set(), set()
+                for n in ast.walk(tree):
+                    if isinstance(n, ast.Import):
+                        for a in n.names:
+                            if a.name == "random":
+                                std_random.add(a.asname or "random")
+                            if a.name in ("numpy", "numpy.random"):
+                                np_names.add(a.asname or a.name.split(".")[0])
+                    if isinstance(n, ast.ImportFrom) and n.module in ("random", "numpy.random"):
+                        for a in n.names:
+                            if a.name not in ("Random", "default_rng", "RandomState", "Generator", "SystemRandom"):
+                                report(f"rt:C08:static:global-rng:{rel}:{a.name}", (0, 1), f"{rel}:{n.lineno}: `from {n.module} import {a.name}` -- a function of the process-global random generator, not driven by the search's seeded RandomSource", rel)
+                for n in ast.walk(tree):
+                    if isinstance(n, ast.Call):
+                        f_ = n.func
+                        chain = []
+                        while isinstance(f_, ast.Attribute):
+                            chain.append(f_.attr)
+                            f_ = f_.value
+                        if isinstance(f_, ast.Name):
+                            chain.append(f_.id)
+                            chain.reverse()
+                            glob = (chain[0] in std_random and len(chain) == 2 and chain[1] not in ("Random", "SystemRandom")) or (
+                                chain[0] in np_names and len(chain) >= 3 and chain[1] == "random" and chain[-1] not in ("default_rng", "RandomState", "Generator")
+                            )
+                            if glob:
+                                report(f"rt:C08:static:global-rng:{rel}:{'.'.join(chain)}", (0, 1), f"{rel}:{n.lineno}: call of {'.'.join(chain)}(...) -- the process-global random generator, whose state the search's seed does not determine", rel)
+                    if isinstance(n, (ast.FunctionDef, ast.AsyncFunctionDef)):
+                        if (rel, n.name) in STATIC_ALLOW:
+                            continue
+                        for d in list(n.args.defaults) + [d for d in n.args.kw_defaults if d is not None]:
+                            if isinstance(d, ast.Call):
+                                callee = ast.unparse(d.func)
+                                if callee.split(".")[-1][:1].isupper():
+                                    report(f"rt:C08:static:shared-default-object:{rel}:{n.name}", (0, 1), f"{rel}:{n.lineno}: parameter default `{ast.unparse(d)[:60]}` of {n.name} is constructed once at import and shared by every call (state carried from one search into the next)", rel)
+    return n_files
+
+
 def run(tier: str, seed: int) -> dict:
     quick = tier != "thorough"
     clock = Clock(24 if quick else 300)
@@ -531,6 +597,12 @@ def run(tier: str, seed: int) -> dict:
     finally:
         shutil.rmtree(tmp, ignore_errors=True)
 
+    def _rep(key, rank, what, unit):
+        if key not in found or rank < found[key][0]:
+            found[key] = (rank, what, unit)
+
+    n_static = static_obligations(_rep)
+    notes.append(f"static obligations (no process-global random generator, no import-time constructed default objects) checked over {n_static} library files")
     if timeouts:
         notes.append(f"{timeouts} runs stopped by the 6 s per-configuration alarm (the stack mapper can loop without bound); for those only the common prefix of evaluated programs was compared")
     violations = [violation(k, v[1], unit=v[2]) for k, v in sorted(found.items())]
